@@ -123,6 +123,53 @@ def diversity(args):
     return bad, n
 
 
+_ZH: dict = {}
+
+
+def zip_history(args):
+    """one behaviour of ZipHistory.tla: tokens of one consumer decrypted in turn, the caller editing the header object it was
+    handed in between; every token is judged by the zip member it arrived with"""
+    hist, ser, enc = args
+    from joserfc import jwe
+    from joserfc.errors import ExceededSizeError
+    if (ser, enc) not in _ZH:
+        jwk = K.get(K.DIR_KEY[enc])
+        data = {"Z1": b"first compressible plaintext " * 40, "Z2": bytes(range(256)) * 9, "ZB": b"\0" * (CAP + 5000), "P1": b"plaintext that travels as it is " * 30}
+        toks = {}
+        for t, d in data.items():
+            h = {"alg": "dir", "enc": enc, **({} if t == "P1" else {"zip": "DEF"})}
+            parts = R.jwe_encrypt(h, d, [{"jwk": jwk}])
+            toks[t] = R.jwe_compact(parts) if ser == "compact" else R.jwe_json(parts, flattened=True)
+        _ZH[(ser, enc)] = (jwk, data, toks)
+    jwk, data, toks = _ZH[(ser, enc)]
+    key = J.jkey(jwk)
+    reg = jwe.JWERegistry(algorithms=["dir", enc, "DEF"])
+    last = None
+    for i, op in enumerate(hist):
+        if op in ("pop_zip", "set_zip"):
+            if last is not None:
+                for d in ([last.protected, last.headers()] if ser == "compact" else [last.protected]):
+                    if op == "pop_zip":
+                        d.pop("zip", None)
+                    else:
+                        d["zip"] = "DEF"
+            continue
+        try:
+            tok = toks[op]
+            last = jwe.decrypt_compact(tok, key, registry=reg) if ser == "compact" else jwe.decrypt_json(json.loads(json.dumps(tok)), key, registry=reg)
+            res = "plaintext" if last.plaintext == data[op] else f"other-plaintext({len(last.plaintext or b'')} octets)"
+        except ExceededSizeError:
+            res, last = "exceeded", None
+        except BaseException as e:  # noqa
+            if isinstance(e, (KeyboardInterrupt, SystemExit)):
+                raise
+            res, last = "error:" + type(e).__name__, None
+        want = "exceeded" if op == "ZB" else "plaintext"
+        if res != want:
+            return args, f"step {i + 1} ({op}): {res} instead of {want}"
+    return args, None
+
+
 def bomb_stream(total: int, pattern: bytes) -> bytes:
     c = zlib.compressobj(9, zlib.DEFLATED, -15)
     out = bytearray()
@@ -166,6 +213,15 @@ def sig(a, what) -> str:
 
 
 def run(ctx: Ctx) -> None:
+    from .common import FreshPool
+    fresh = FreshPool(8)                 # created before this process has touched the library: one forked process per history below
+    try:
+        _run(ctx, fresh)
+    finally:
+        fresh.close()
+
+
+def _run(ctx: Ctx, fresh) -> None:
     thorough = ctx.tier == "thorough"
     r = ctx.tlc("Deflate", "Deflate_thorough" if thorough else "Deflate", timeout=900, workers=4 if thorough else 1)
     for d in ("TailOnly", "CheckAfterFullInflate", "OffByOne", "SilentCut"):
@@ -265,6 +321,19 @@ def run(ctx: Ctx) -> None:
     # (DeflateShared.tla; deterministic scheduler of C20) must each decide as in isolation
     ctx.tlc("DeflateShared", timeout=300)
     ctx.sensitivity("DeflateShared", "DeflateShared_dev_InflaterOnModel")
+    # histories of one consumer (ZipHistory.tla): the zip decision belongs to the token, not to a header object handed out earlier
+    rz = ctx.tlc("ZipHistory", timeout=300)
+    ctx.sensitivity("ZipHistory", "ZipHistory_dev_ParsedHeaderShared")
+    zh = list({json.dumps(h): h for h in rz.cases}.values())
+    if len(zh) < 200:
+        raise MachineryError(f"ZipHistory export too small: {len(zh)}")
+    ztasks = [(h, ser, enc) for h in zh for ser, enc in (("compact", "A128GCM"), ("flattened", "A128CBC-HS256"))]
+    for (h, ser, enc), what in fresh.map(zip_history, ztasks, chunksize=8):
+        ctx.evaluations += 1
+        ctx.nontrivial.add("ziphist:" + ser + ":" + " ".join(h))
+        if what:
+            ctx.violation(f"deflate:history [{' '.join(h)}] {ser} -> {what}", {"zip_history": h, "ser": ser, "enc": enc, "what": what})
+    ctx.notes["zip_histories"] = len(ztasks)
     from . import c20
     pairs = [(kind, a, b, 1, ctx.seed, 30 if thorough else 8) for kind in (("oct256", "EC:P-256", "RSA2048") if thorough else ("oct256",))
              for a, b in (("decrypt_zip", "decrypt_zip_over"), ("decrypt_zip_over", "decrypt_zip_over"), ("decrypt_zip", "decrypt_zip"),
@@ -302,6 +371,11 @@ def replay(ctx: Ctx, rec: dict) -> None:
         print("ops", rec["ops"], "preempts", rec["preempts"], "-> problems now:", problems)
         if problems:
             ctx.violation(rec["signature"], {"problems": problems})
+    elif "zip_history" in rec:
+        _, what = zip_history((rec["zip_history"], rec["ser"], rec["enc"]))
+        print(rec["zip_history"], rec["ser"], "->", what)
+        if what:
+            ctx.violation(rec["signature"], {"now": what})
     elif "class" in rec:
         a = (rec["class"], rec["length"], rec["enc"], rec["ser"], rec["framing"], rec.get("seed", 0))
         print(case(a))
